@@ -690,3 +690,379 @@ Proof. apply empty_inv. split; cbn; try constructor; tauto. Qed.
     configuration and any clock readings. *)
 Theorem inv_reachable c h : Inv c (run c h empty_state).
 Proof. apply run_inv, empty_state_inv. Qed.
+
+(** * The hostname index *)
+
+Lemma eqb_bytes_spec (a b : bytes) : eqb_bytes a b = true <-> a = b.
+Proof.
+  unfold eqb_bytes. revert b; induction a as [|x a IH]; destruct b as [|y b]; cbn;
+    try (split; [discriminate|discriminate]); try tauto.
+  rewrite andb_true_iff, IH, N.eqb_eq. split; [intros [-> ->]; auto|intros H; inversion H; auto].
+Qed.
+
+Lemma hupd_eq {A} (f : bytes -> A) k v x : hupd f k v x = if eqb_bytes x k then v else f x.
+Proof. reflexivity. Qed.
+
+Lemma hupd_same {A} (f : bytes -> A) k v : hupd f k v k = v.
+Proof. rewrite hupd_eq. destruct (eqb_bytes k k) eqn:E; auto.
+  assert (eqb_bytes k k = true) by (apply eqb_bytes_spec; auto). congruence. Qed.
+
+Lemma hupd_other {A} (f : bytes -> A) k v x : x <> k -> hupd f k v x = f x.
+Proof. intros H. rewrite hupd_eq. destruct (eqb_bytes x k) eqn:E; auto.
+  apply eqb_bytes_spec in E. contradiction. Qed.
+
+Lemma is_nil_spec {A} (l : list A) : is_nil l = true <-> l = [].
+Proof. destruct l; cbn; split; congruence. Qed.
+
+Definition names (L : list lease) : list (N * bytes) := map (fun l => (l_ip l, l_host l)) L.
+
+(** The hostname index has exactly one entry per named lease, pointing to it. *)
+Definition HInv (M : list (N * bytes)) (hi : bytes -> option N) : Prop :=
+  forall h ip, hi h = Some ip <-> (h <> [] /\ In (ip, h) M).
+
+Lemma names_fst L : map fst (names L) = ips L.
+Proof. unfold names, ips. rewrite map_map. reflexivity. Qed.
+
+Lemma names_app a b : names (a ++ b) = names a ++ names b.
+Proof. apply map_app. Qed.
+
+Lemma HInv_ext M hi hi' : (forall h, hi h = hi' h) -> HInv M hi -> HInv M hi'.
+Proof. intros E H h ip. rewrite <- E. apply H. Qed.
+
+Lemma HInv_mem M M' hi : (forall p, In p M <-> In p M') -> HInv M hi -> HInv M' hi.
+Proof. intros E H h ip. rewrite <- E. apply H. Qed.
+
+Lemma HInv_nil_key M hi : HInv M hi -> hi [] = None.
+Proof. intros H. destruct (hi []) as [ip|] eqn:E; auto. apply H in E. tauto. Qed.
+
+Lemma HInv_remove M1 ip h M2 hi :
+  HInv (M1 ++ (ip, h) :: M2) hi -> NoDup (map fst (M1 ++ (ip, h) :: M2)) ->
+  HInv (M1 ++ M2) (hupd hi h None).
+Proof.
+  intros H N k ip'.
+  assert (Hn : ~ In ip (map fst (M1 ++ M2))).
+  { rewrite map_app in *. cbn in N. apply NoDup_remove_2 in N. exact N. }
+  destruct (list_eq_dec N.eq_dec k h) as [->|Hk].
+  - rewrite hupd_same. split; [discriminate|]. intros [Hne Hin]. exfalso.
+    assert (E1 : hi h = Some ip') by (apply H; split; auto; rewrite in_app_iff in *; cbn; tauto).
+    assert (E2 : hi h = Some ip) by (apply H; split; auto; rewrite in_app_iff; cbn; tauto).
+    assert (ip' = ip) by congruence. subst. apply Hn. apply in_map_iff. exists (ip, h); auto.
+  - rewrite hupd_other by auto. rewrite (H k ip'), !in_app_iff. cbn.
+    split; intros [? Hin]; split; auto; [|tauto].
+    destruct Hin as [?|[E|?]]; auto. inversion E; congruence.
+Qed.
+
+Lemma HInv_add M ip h hi :
+  HInv M hi -> (h = [] \/ hi h = None) ->
+  HInv (M ++ [(ip, h)]) (if is_nil h then hi else hupd hi h (Some ip)).
+Proof.
+  intros H Hh k ip'. rewrite in_app_iff. cbn.
+  destruct (is_nil h) eqn:En.
+  - apply is_nil_spec in En. subst h. rewrite (H k ip'). split; [tauto|].
+    intros [? [?|[E|[]]]]; auto. inversion E; congruence.
+  - assert (h <> []) by (intros ->; discriminate).
+    destruct Hh as [?|Hh]; [contradiction|].
+    destruct (list_eq_dec N.eq_dec k h) as [->|Hk].
+    + rewrite hupd_same. split.
+      * intros E; inversion E; subst. auto.
+      * intros [_ [Hin|[E|[]]]]; [|inversion E; auto].
+        assert (hi h = Some ip') by (apply H; auto). congruence.
+    + rewrite hupd_other by auto. rewrite (H k ip'). split; [tauto|].
+      intros [? [?|[E|[]]]]; auto. inversion E; congruence.
+Qed.
+
+(** Renaming the lease with address [ip] from [prev] to [h], the way
+    commitLease updates the index. *)
+Lemma HInv_rename M1 ip prev M2 hi h :
+  HInv (M1 ++ (ip, prev) :: M2) hi -> NoDup (map fst (M1 ++ (ip, prev) :: M2)) ->
+  (h = prev \/ h = [] \/ hi h = None) ->
+  HInv (M1 ++ (ip, h) :: M2)
+    (let hi1 := if negb (is_nil prev) && negb (eqb_bytes prev h) then hupd hi prev None else hi in
+     if is_nil h then hi1 else hupd hi1 h (Some ip)).
+Proof.
+  intros H N Hh.
+  destruct (list_eq_dec N.eq_dec h prev) as [->|Hne].
+  - (* same name: nothing changes *)
+    assert (E : eqb_bytes prev prev = true) by (apply eqb_bytes_spec; auto).
+    rewrite E, andb_false_r. cbn zeta.
+    destruct (is_nil prev) eqn:En; auto.
+    eapply HInv_ext; [|exact H]. intros k.
+    destruct (list_eq_dec N.eq_dec k prev) as [->|Hk].
+    + rewrite hupd_same. apply H. split; [intros ->; discriminate|]. rewrite in_app_iff; cbn; auto.
+    + rewrite hupd_other; auto.
+  - assert (Hh' : h = [] \/ hi h = None) by tauto. clear Hh.
+    assert (E : eqb_bytes prev h = false).
+    { destruct (eqb_bytes prev h) eqn:E; auto. apply eqb_bytes_spec in E. congruence. }
+    rewrite E, andb_true_r. cbn zeta.
+    pose proof (HInv_remove _ _ _ _ _ H N) as R.
+    assert (R' : HInv (M1 ++ M2) (if negb (is_nil prev) then hupd hi prev None else hi)).
+    { destruct (is_nil prev) eqn:En; cbn; auto. apply is_nil_spec in En. subst prev.
+      eapply HInv_ext; [|exact R]. intros k.
+      destruct (list_eq_dec N.eq_dec k []) as [->|Hk].
+      - rewrite hupd_same. symmetry. eapply HInv_nil_key; eauto.
+      - rewrite hupd_other; auto. }
+    eapply HInv_mem; [|apply (HInv_add _ ip h _ R')].
+    + intros p. rewrite !in_app_iff. cbn. tauto.
+    + destruct Hh' as [?|Hn]; auto. right.
+      destruct (negb (is_nil prev)); auto. rewrite hupd_other; auto.
+Qed.
+
+Record FullInv (c : conf) (s : state) : Prop := {
+  fi_inv : Inv c s;
+  fi_host : HInv (names (leases s)) (hidx (ix s))
+}.
+
+Lemma names_split_nodup l1 l l2 :
+  NoDup (ips (l1 ++ l :: l2)) -> NoDup (map fst (names l1 ++ (l_ip l, l_host l) :: names l2)).
+Proof. intros N. rewrite <- names_fst, names_app in N. exact N. Qed.
+
+Lemma add_lease_hidx c l s s' :
+  add_lease c l s = Some s' ->
+  (l_host l = [] \/ hidx (ix s) (l_host l) = None) /\
+  hidx (ix s') = (if is_nil (l_host l) then hidx (ix s)
+                  else hupd (hidx (ix s)) (l_host l) (Some (l_ip l))).
+Proof.
+  unfold add_lease. intros H.
+  destruct (if l_static l then _ else _); [discriminate|].
+  destruct (negb (is_nil (l_host l)) && is_some (hidx (ix s) (l_host l))) eqn:E; [discriminate|].
+  inversion H; subst; cbn. split; auto.
+  apply andb_false_iff in E as [E|E].
+  - left. apply negb_false_iff, is_nil_spec in E. auto.
+  - right. destruct (hidx (ix s) (l_host l)); [discriminate|auto].
+Qed.
+
+Lemma add_lease_full c l s s' :
+  FullInv c s -> add_lease c l s = Some s' ->
+  ~ In (l_ip l) (ips (leases s)) -> ~ In (l_mac l) (macs (leases s)) ->
+  (l_static l = true -> l_ip l <> c_gw c) ->
+  FullInv c s'.
+Proof.
+  intros [I H] Ea Hi Hm Hg. split; [eapply add_lease_inv; eauto|].
+  destruct (add_lease_hidx _ _ _ _ Ea) as [Hc ->].
+  apply add_lease_some in Ea as (-> & _). rewrite names_app. cbn.
+  apply HInv_add; auto.
+Qed.
+
+Lemma rm_lease_by_index_full c i s : FullInv c s -> FullInv c (rm_lease_by_index c i s).
+Proof.
+  intros [I H]. split; [apply rm_lease_by_index_inv; auto|].
+  unfold rm_lease_by_index. destruct (nth_error (leases s) i) as [l|] eqn:E; auto.
+  destruct (nth_error_split' _ _ _ E) as (l1 & l2 & EL & <-). cbn.
+  rewrite EL, remove_nth_split, names_app. rewrite EL, names_app in H. cbn in H.
+  eapply HInv_remove; eauto.
+  apply names_split_nodup. rewrite <- EL. apply I.
+Qed.
+
+Lemma rm_dyn_host c mac ip host ls : forall pre x,
+  NoDup (ips (pre ++ ls)) -> HInv (names (pre ++ ls)) (hidx x) ->
+  HInv (names (pre ++ fst (fst (rm_dyn c mac ip host ls x)))) (hidx (snd (fst (rm_dyn c mac ip host ls x)))).
+Proof.
+  induction ls as [|l r IH]; intros pre x N H; cbn; [exact H|].
+  assert (Nn : NoDup (map fst (names pre ++ (l_ip l, l_host l) :: names r))).
+  { apply names_split_nodup. exact N. }
+  destruct ((l_mac l =? mac) || (l_ip l =? ip)).
+  - destruct (l_static l); cbn; [exact H|].
+    apply IH.
+    + eapply Thin_nodup_ip; [apply Thin_remove|exact N].
+    + cbn. rewrite names_app in *. cbn in H. eapply HInv_remove; eauto.
+  - destruct (negb (l_static l) && negb (is_nil (l_host l)) && eqb_bytes (l_host l) host) eqn:Ec.
+    + specialize (IH (pre ++ [set_host l []]) (Index (hupd (hidx x) (l_host l) None) (iidx x) (offs x))).
+      destruct (rm_dyn c mac ip host r _) as [[r' x'] e]. cbn in *.
+      rewrite <- !app_assoc in IH. cbn in IH. apply IH.
+      * rewrite ips_app in *. exact N.
+      * rewrite names_app in *. cbn in *.
+        apply andb_true_iff in Ec as [Ec _]. apply andb_true_iff in Ec as [_ Ec].
+        apply negb_true_iff in Ec.
+        pose proof (HInv_rename _ _ _ _ _ [] H Nn (or_intror (or_introl eq_refl))) as R.
+        cbn zeta in R. rewrite Ec in R. cbn [negb andb is_nil] in R.
+        destruct (l_host l); [discriminate|]. exact R.
+    + specialize (IH (pre ++ [l]) x).
+      destruct (rm_dyn c mac ip host r x) as [[r' x'] e]. cbn in *.
+      rewrite <- !app_assoc in IH. cbn in IH. apply IH; auto.
+Qed.
+
+Lemma rm_dynamic_lease_full c mac ip host s :
+  FullInv c s -> FullInv c (fst (rm_dynamic_lease c mac ip host s)).
+Proof.
+  intros [I H]. split; [apply rm_dynamic_lease_inv; auto|].
+  unfold rm_dynamic_lease.
+  pose proof (rm_dyn_host c mac ip host (leases s) [] (ix s)) as X.
+  destruct (rm_dyn c mac ip host (leases s) (ix s)) as [[ls x] e]. cbn in *.
+  apply X; auto. apply I.
+Qed.
+
+Lemma names_update_nth i f L :
+  (forall l, l_ip (f l) = l_ip l /\ l_host (f l) = l_host l) -> names (update_nth i f L) = names L.
+Proof.
+  intros Hf. revert i; induction L as [|a L IH]; destruct i; cbn; try reflexivity.
+  - destruct (Hf a) as [-> ->]; reflexivity.
+  - f_equal; apply IH.
+Qed.
+
+Lemma reserve_full c now mac s :
+  FullInv c s -> ~ In mac (macs (leases s)) -> FullInv c (fst (reserve c now mac s)).
+Proof.
+  intros F Hmac. pose proof (reserve_inv c now mac s (fi_inv _ _ F) Hmac) as R.
+  unfold reserve in *.
+  destruct (next_ip c s) as [ip|] eqn:En.
+  - destruct (add_lease c _ s) as [s'|] eqn:Ea; cbn; auto.
+    eapply add_lease_full; eauto; cbn; [|discriminate].
+    eapply next_ip_fresh; eauto. apply F.
+  - destruct (find_expired now (leases s)) as [[i l]|] eqn:Ef; cbn in *; auto.
+    split; auto. cbn. rewrite names_update_nth; [apply F|]. intros; split; reflexivity.
+Qed.
+
+Lemma commit_full c now i host s : FullInv c s -> FullInv c (commit c now i host s).
+Proof.
+  intros [I H]. split; [apply commit_inv; auto|].
+  unfold commit. destruct (nth_error (leases s) i) as [l|] eqn:E; auto.
+  destruct (nth_error_split' _ _ _ E) as (l1 & l2 & EL & <-). cbn [leases ix hidx].
+  rewrite EL, update_nth_split, names_app. cbn [names map l_ip l_host set_exp set_host].
+  rewrite EL, names_app in H. cbn [names map] in H.
+  fold (names l2) in *.
+  apply (HInv_rename _ _ _ _ _ _ H).
+  - apply names_split_nodup. rewrite <- EL. apply I.
+  - destruct (hidx (ix s) (valid_hostname_for_client host (l_ip l))) eqn:E0; cbn [is_some]; [|auto].
+    destruct (is_nil (l_host l)) eqn:En; [|auto].
+    destruct (hidx (ix s) (gen_hostname (l_ip l))) eqn:Eg; cbn [is_some]; auto.
+Qed.
+
+Lemma store_full c s : FullInv c s -> FullInv c (store s).
+Proof. intros [I H]. split; [apply store_inv; auto|exact H]. Qed.
+
+Lemma load_fold_full c : forall d s,
+  FullInv c s -> NoDup (ips d) -> NoDup (macs d) ->
+  (forall l, In l d -> l_static l = true -> l_ip l <> c_gw c) ->
+  (forall l, In l d -> ~ In (l_ip l) (ips (leases s)) /\ ~ In (l_mac l) (macs (leases s))) ->
+  FullInv c (fold_left (load_step c) d s).
+Proof.
+  induction d as [|l d IH]; intros s I Ni Nm G F; cbn; auto.
+  cbn in Ni, Nm. apply NoDup_cons_iff in Ni as [Ni1 Ni2]. apply NoDup_cons_iff in Nm as [Nm1 Nm2].
+  destruct (reload_lease_core l) as (E1 & E2 & E3).
+  apply IH; auto.
+  - unfold load_step. destruct (add_lease c (reload_lease l) s) as [s'|] eqn:Ea; auto.
+    destruct (F l (or_introl eq_refl)).
+    eapply add_lease_full; eauto; rewrite <- ?E1, <- ?E2, <- ?E3; auto.
+    apply G; cbn; auto.
+  - intros; apply G; cbn; auto.
+  - intros y Hy. unfold load_step.
+    destruct (add_lease c (reload_lease l) s) as [s'|] eqn:Ea; [|apply F; cbn; auto].
+    apply add_lease_some in Ea as (-> & _). rewrite ips_app, macs_app, !in_app_iff. cbn.
+    rewrite <- E1, <- E2. destruct (F y (or_intror Hy)) as [Fa Fb].
+    split; intros [?|[Q|[]]]; auto.
+    + apply Ni1. rewrite Q. apply in_map; auto.
+    + apply Nm1. rewrite Q. apply in_map; auto.
+Qed.
+
+Lemma load_full c d : DiskInv c d -> FullInv c (load c d).
+Proof.
+  intros K. unfold load. pose proof K as [A B G]. apply load_fold_full; auto.
+  split; [apply empty_inv; auto|]. unfold HInv; cbn. intros h ip. split; [discriminate|intros [_ []]].
+Qed.
+
+Lemma discover_full c now mac s : FullInv c s -> FullInv c (fst (discover c now mac s)).
+Proof.
+  intros I. unfold discover.
+  destruct (find_lease mac (leases s)) as [[i l]|] eqn:Ef; cbn; [apply store_full; auto|].
+  pose proof (reserve_full c now mac s I (find_index_none_mac _ _ Ef)) as R.
+  destruct (reserve c now mac s) as [s' r]; cbn in *.
+  destruct r; cbn; apply store_full; auto.
+Qed.
+
+Lemma request_full c now mac sid reqip ci host s :
+  FullInv c s -> FullInv c (fst (request c now mac sid reqip ci host s)).
+Proof.
+  intros I. unfold request.
+  destruct (request_lease c mac sid reqip ci s) as [r|[i l]]; cbn; auto.
+  destruct (l_static l); cbn; apply store_full; auto using commit_full.
+Qed.
+
+Lemma decline_full c now mac reqip ci s : FullInv c s -> FullInv c (fst (decline c now mac reqip ci s)).
+Proof.
+  intros I. unfold decline.
+  destruct (find_index _ (leases s)) as [[oi old]|] eqn:Ef; cbn; [|apply store_full; auto].
+  apply find_index_some in Ef as [_ Ep]. apply andb_true_iff in Ep as [Em _]. apply N.eqb_eq in Em.
+  pose proof (rm_dynamic_lease_full c (l_mac old) (l_ip old) (l_host old) s I) as I1.
+  pose proof (rm_dynamic_lease_clears c (l_mac old) (l_ip old) (l_host old) s) as C1.
+  destruct (rm_dynamic_lease c (l_mac old) (l_ip old) (l_host old) s) as [s1 e]; cbn in *.
+  destruct e; cbn; [apply store_full; auto|].
+  destruct (C1 eq_refl) as [Cm _]. rewrite Em in Cm.
+  pose proof (reserve_full c now mac s1 I1 Cm) as R.
+  destruct (reserve c now mac s1) as [s2 r]; cbn in *.
+  destruct r; cbn; apply store_full; auto using commit_full.
+Qed.
+
+Lemma release_full c mac reqip ci s : FullInv c s -> FullInv c (fst (release c mac reqip ci s)).
+Proof.
+  intros I. unfold release.
+  destruct (find_index _ (leases s)) as [[oi old]|] eqn:Ef; cbn; [|apply store_full; auto].
+  pose proof (rm_dynamic_lease_full c (l_mac old) (l_ip old) (l_host old) s I) as I1.
+  destruct (rm_dynamic_lease c (l_mac old) (l_ip old) (l_host old) s) as [s1 e]; cbn in *.
+  destruct e; cbn; apply store_full; auto.
+Qed.
+
+Lemma static_add_full c mac ip host s : FullInv c s -> FullInv c (fst (static_add c mac ip host s)).
+Proof.
+  intros I. unfold static_add.
+  destruct (N.eqb_spec ip (c_gw c)) as [|Hgw]; cbn; auto.
+  destruct (if is_nil host then Some [] else _) as [h|]; cbn; auto.
+  pose proof (rm_dynamic_lease_full c mac ip h s I) as I1.
+  pose proof (rm_dynamic_lease_clears c mac ip h s) as C1.
+  destruct (rm_dynamic_lease c mac ip h s) as [s1 e]; cbn in *.
+  destruct e; cbn; [apply store_full; auto|].
+  destruct (C1 eq_refl) as [Cm Ci].
+  destruct (add_lease c _ s1) as [s2|] eqn:Ea; cbn; apply store_full; auto.
+  eapply add_lease_full; eauto.
+Qed.
+
+Lemma rm_lease_full c ip mac host s s1 : FullInv c s -> rm_lease c ip mac host s = Some s1 -> FullInv c s1.
+Proof.
+  intros I H. apply rm_lease_some in H as [[-> _]|(l1 & l & l2 & _ & _ & _ & -> & _)]; auto.
+  apply rm_lease_by_index_full; auto.
+Qed.
+
+Lemma static_update_full c mac ip host s : FullInv c s -> FullInv c (fst (static_update c mac ip host s)).
+Proof.
+  intros F. pose proof (static_update_inv c mac ip host s (fi_inv _ _ F)) as SI.
+  split; auto. unfold static_update in *.
+  destruct (find_lease mac (leases s)) as [[fi found]|] eqn:Ef; cbn; [|apply F].
+  destruct (validate_static c mac ip host s) as [h|] eqn:Ev; cbn; [|apply F].
+  destruct (rm_lease c _ _ _ s) as [s1|] eqn:Er; cbn; [|apply F].
+  pose proof (rm_lease_full _ _ _ _ _ _ F Er) as F1.
+  destruct (add_lease c _ s1) as [s2|] eqn:Ea; cbn; [|apply F1].
+  destruct (add_lease_hidx _ _ _ _ Ea) as [Hc Eh]. cbn in Hc, Eh. rewrite Eh.
+  apply add_lease_some in Ea as (-> & _). rewrite names_app. cbn.
+  apply HInv_add; auto. apply F1.
+Qed.
+
+Lemma static_remove_full c mac ip host s : FullInv c s -> FullInv c (fst (static_remove c mac ip host s)).
+Proof.
+  intros I. unfold static_remove. destruct (rm_lease c ip mac host s) as [s1|] eqn:Er; cbn; auto.
+  apply store_full. eapply rm_lease_full; eauto.
+Qed.
+
+Theorem step_full c s now o : FullInv c s -> FullInv c (fst (step c s now o)).
+Proof.
+  intros I. destruct o; cbn [step].
+  - apply discover_full; auto.
+  - apply request_full; auto.
+  - apply decline_full; auto.
+  - apply release_full; auto.
+  - apply static_add_full; auto.
+  - apply static_update_full; auto.
+  - apply static_remove_full; auto.
+  - exact I.
+  - apply load_full. apply I.
+Qed.
+
+Theorem run_full c h : forall s, FullInv c s -> FullInv c (run c h s).
+Proof.
+  unfold run. induction h as [|[now o] h IH]; intros s I; cbn; auto.
+  apply IH. apply step_full; auto.
+Qed.
+
+Lemma empty_state_full c : FullInv c empty_state.
+Proof. split; [apply empty_state_inv|]. unfold HInv; cbn. intros h ip. split; [discriminate|intros [_ []]]. Qed.
+
+Theorem full_inv_reachable c h : FullInv c (run c h empty_state).
+Proof. apply run_full, empty_state_full. Qed.
